@@ -264,10 +264,14 @@ def history(seed, hk, nops, maxpool=4):
                 else:
                     # an equal-content copy or a one-bit / one-width neighbour, placed in the pool
                     kind = rng.choice(["copy", "flip", "wider"])
+                    # "equality means same width and same bits": whatever kind of frame carries them
+                    from dali.frame import BackwardFrame, BackwardFrameError
+                    mk = rng.choice([lambda v: Frame(w, v), lambda v: ForwardFrame(w, v)] +
+                                    ([lambda v: BackwardFrame(v), lambda v: BackwardFrameError(v)] * 2 if w == 8 else []))
                     if kind == "copy":
-                        other = Frame(w, f.as_integer)
+                        other = mk(f.as_integer)
                     elif kind == "flip":
-                        other = Frame(w, f.as_integer ^ (1 << rng.randrange(w)))
+                        other = mk(f.as_integer ^ (1 << rng.randrange(w)))
                     else:
                         other = Frame(w + 1, f.as_integer)
                     # materialise it as a 'new' event first so the model knows it
